@@ -174,11 +174,23 @@ def run(chk, facts):
 
     # ---------------- R-C19-3 ----------------
     table = load_table("panic_sites.json")
-    reviewed = {(r["fn"], r["kind"]): r for r in table["sites"]}
-    cnt, loc3 = c03.census(mir)
+    reviewed = c03.reviewed_sites(mir, syn, table)
+    cnt, loc3 = c03.census(mir, syn)
+    # the rendering code: the renderers and every function of the crate they can reach
+    cg = mir.callgraph()
+    roots = [p for p in mir.fns if any(p.endswith(r) or r in p for r in RENDERERS)]
+    reach, todo = set(roots), list(roots)
+    while todo:
+        x = todo.pop()
+        for y in cg.get(x, ()):
+            if y in mir.fns and y not in reach:
+                reach.add(y)
+                todo.append(y)
+    from .common import owner_root
+    reach_owners = {owner_root(mir, syn, p) for p in reach}
     n3 = 0
     for (fn, kind), n in sorted(cnt.items()):
-        if not any(fn.endswith(r) or r in fn for r in RENDERERS):
+        if fn not in reach_owners:
             continue
         n3 += 1
         r = reviewed.get((fn, kind))
